@@ -60,3 +60,23 @@ Theorem C12_built_globs_without_repetitions_are_never_sometimes_rooted : forall 
   build e = BuildOk t r -> rep_free t = true -> has_root t <> Sometimes.
 Proof. exact built_never_sometimes. Qed.
 Print Assumptions C12_built_globs_without_repetitions_are_never_sometimes_rooted.
+
+From WaxProofs Require Import RootRep.
+
+(* beyond globs without repetitions: `has_root` only reads the starting chain of the tree (the first token, and through alternations
+   the first token of every branch), so repetitions anywhere else are irrelevant; and an expression may begin with a repetition whose
+   body begins with a leaf (`<a/:1,>b`; `</a:1,>` is rooted like its leaf; `</a:0,>` is rejected as a rooted sub-glob, which is exactly
+   what makes the optional case Never).  The complement - a repetition at the beginning of an alternation branch or of another
+   repetition - is the known class nested_rooting (`{</a:1,>,c}` builds and is sometimes rooted) *)
+Theorem C12_built_globs_that_start_plainly_are_never_sometimes_rooted : forall e t r,
+  build e = BuildOk t r -> starts_plainly t = true -> has_root t <> Sometimes.
+Proof. exact built_never_sometimes_r. Qed.
+Print Assumptions C12_built_globs_that_start_plainly_are_never_sometimes_rooted.
+
+(* the premises are satisfiable: <a/:0,>{b,c}<d:0,> (never rooted), </a:1,>b (always rooted) *)
+Example C12_starts_plainly_nonvacuous :
+  (let e := [60;97;47;58;48;44;62;123;98;44;99;125;60;100;58;48;44;62]%N in
+   exists t r, build e = BuildOk t r /\ starts_plainly t = true /\ rep_free t = false /\ has_root t = Never) /\
+  (let e := [60;47;97;58;49;44;62;98]%N in
+   exists t r, build e = BuildOk t r /\ starts_plainly t = true /\ has_root t = Always).
+Proof. cbv zeta. split; do 2 eexists; repeat split; vm_compute; reflexivity. Qed.
